@@ -107,7 +107,7 @@ def run(prog: Program, L: Ledger) -> None:
         if isinstance(st, ast.Assign) and isinstance(st.targets[0], ast.Name):
             try:
                 t.run_block([st])
-            except Unsupported:
+            except (Unsupported, TypeError):
                 t.env[st.targets[0].id] = vocab.atom(norm(st.value))
         elif isinstance(st, ast.Expr) and isinstance(st.value, ast.Call):
             fn = norm(st.value.func)
@@ -123,6 +123,9 @@ def run(prog: Program, L: Ledger) -> None:
     from ..dataflow import self_attr_assignments
 
     assigns = self_attr_assignments(prog, fb)
+    # the displacement is whatever is handed to set_momenta divided by the masses (no reliance on a local's name)
+    if setmom is not None:
+        t.env["displacement"] = sp.simplify(sp.sympify(setmom) / vocab.sym("M", positive=True))
     disp_expr = sp.sympify(t.env.get("displacement", 0))
     for txt in [k for k, s_ in list(vocab.unknown.items()) if k.startswith("self.") and s_ in disp_expr.free_symbols]:
         attr = txt.split(".", 1)[1]
@@ -269,10 +272,13 @@ def run(prog: Program, L: Ledger) -> None:
     if len(loops) != 1:
         raise AnalysisError(f"ForceBias.step: expected one rejection loop, found {len(loops)}")
     lp = loops[0]
-    m_ = __import__("re").match(r"^not (?:np\.all\((\w+)\)|(\w+)\.all\(\))$", norm(lp.ast))
-    accv = (m_.group(1) or m_.group(2)) if m_ else None
+    re_ = __import__("re")
+    m_ = re_.match(r"^not (?:np\.all\((\w+)\)|(\w+)\.all\(\))$", norm(lp.ast))
+    m2_ = re_.match(r"^(?:np\.any\((\w+)\)|(\w+)\.any\(\))$", norm(lp.ast))
+    accv = (m_.group(1) or m_.group(2)) if m_ else ((m2_.group(1) or m2_.group(2)) if m2_ else None)
+    rejected_form = bool(m2_) and not m_  # the loop variable holds the NOT-yet-accepted mask
     L.check(accv is not None, "A", "ForceBias.step:loop-exit", f"{step.module.relpath}:{lp.lineno}",
-            f"rejection loop condition is `{norm(lp.ast)}`, not `not np.all(<accepted>)`", "the step ends with unaccepted components / never ends", norm(lp.ast))
+            f"rejection loop condition is `{norm(lp.ast)}`, not `not np.all(<accepted>)` / `np.any(<rejected>)`", "the step ends with unaccepted components / never ends", norm(lp.ast))
     npaths = 0
     for path in cfg.paths(max_back=2, include_exc=False):
         npaths += 1
@@ -296,19 +302,29 @@ def run(prog: Program, L: Ledger) -> None:
     for s_ in conv_defs:
         v = s_.value
         okacc = False
+        negated = False
+        if rejected_form:
+            # rejected = ~(P > u)  |  np.logical_not(P > u)  |  P <= u
+            if isinstance(v, ast.UnaryOp) and isinstance(v.op, (ast.Invert, ast.Not)):
+                v, negated = v.operand, True
+            elif isinstance(v, ast.Call) and norm(v.func) in ("np.logical_not", "numpy.logical_not") and len(v.args) == 1:
+                v, negated = v.args[0], True
         if isinstance(v, ast.Compare) and len(v.ops) == 1:
             l_, r_ = norm(v.left), norm(v.comparators[0])
-            if isinstance(v.ops[0], ast.Gt) and l_ == "self.calculate_trial_probability()" and isinstance(v.comparators[0], ast.Name):
+            gt, lt = (ast.Gt, ast.Lt) if (not rejected_form or negated) else (ast.LtE, ast.GtE)
+            if isinstance(v.ops[0], gt) and l_ == "self.calculate_trial_probability()" and isinstance(v.comparators[0], ast.Name):
                 okacc, uvar = True, r_
-            if isinstance(v.ops[0], ast.Lt) and r_ == "self.calculate_trial_probability()" and isinstance(v.left, ast.Name):
+            if isinstance(v.ops[0], lt) and r_ == "self.calculate_trial_probability()" and isinstance(v.left, ast.Name):
                 okacc, uvar = True, l_
+        if rejected_form and not negated and isinstance(s_.value, ast.Compare) and isinstance(s_.value.ops[0], (ast.Gt, ast.Lt)):
+            okacc = False  # `rejected = P > u`: polarity inverted
         L.check(okacc, "A", "ForceBias.step:acceptance", f"{step.module.relpath}:{s_.lineno}",
                 f"acceptance test is `{norm(s_.value)}`, not `P_trial > u`", "components are accepted with probability 1 − ρ", norm(s_.value))
     L.floor("acceptance tests in step()", len(conv_defs), 2)
     # names for the negated mask inside the loop
-    masks = {f"~{accv}"}
+    masks = {accv} if rejected_form else {f"~{accv}"}
     for s_ in body:
-        if isinstance(s_, ast.Assign) and isinstance(s_.targets[0], ast.Name) and norm(s_.value) == f"~{accv}":
+        if isinstance(s_, ast.Assign) and isinstance(s_.targets[0], ast.Name) and norm(s_.value) in (f"~{accv}", f"np.logical_not({accv})") and not rejected_form:
             masks.add(s_.targets[0].id)
     for s_ in body:
         if isinstance(s_, ast.Assign):
